@@ -1491,3 +1491,492 @@ Section CliReading.
     rewrite l002_keeps_reading. apply l001_keeps_reading.
   Qed.
 End CliReading.
+
+(* ------------------------------------------------------------------------------------------------ *)
+(* formatSQL *)
+
+Section Format.
+  Variable is_space : N -> bool.
+  Variable upper_ascii : N -> option N.
+  Hypothesis sp_nodelim : is_space 39 = false /\ is_space 34 = false /\ is_space 96 = false /\
+                          is_space 45 = false /\ is_space 42 = false /\ is_space 47 = false.
+  Hypothesis sp32 : is_space 32 = true.
+  Hypothesis sp9 : is_space 9 = true.
+
+  Notation spacec := (spacec is_space).
+  Notation tspace := (tspace is_space).
+  Notation trim_code := (trim_code is_space).
+  Notation spf := (fun p : cc => spacec (fst p)).
+
+  Definition cpairs (l : list ch) : list cc := map (fun c => (c, 0)) l.
+
+  (* the classified lines formatSQL emits *)
+  Fixpoint flines (indent cur : list ch) (ls : list (bool * list cc)) : list (bool * list cc) :=
+    match ls with
+    | [] => []
+    | (flag, l) :: r =>
+        if flag then
+          match trim_code l with
+          | [] => flines indent cur r
+          | tr => let cur' := fmt_next_indent upper_ascii indent cur (chars tr) in (true, cpairs cur' ++ tr) :: flines indent cur' r
+          end
+        else (false, l) :: flines indent cur r
+    end.
+
+  Lemma chars_cpairs : forall l, chars (cpairs l) = l.
+  Proof. unfold chars, cpairs. intro l. rewrite map_map. cbn. apply map_id. Qed.
+
+  Lemma chars_cpairs_app : forall x tr, chars (cpairs x ++ tr) = x ++ chars tr.
+  Proof. intros x tr. unfold chars. rewrite map_app. fold (chars (cpairs x)). rewrite chars_cpairs. reflexivity. Qed.
+
+  Lemma fmt_lines_flines : forall indent ls cur,
+    fmt_lines is_space upper_ascii indent cur ls = map (fun fl => chars (snd fl)) (flines indent cur ls).
+  Proof.
+    intros indent. induction ls as [|[flag l] r IH]; intro cur; [reflexivity|]. cbn [fmt_lines flines]. destruct flag.
+    - destruct (trim_code l) as [|p tr] eqn:E; [apply IH|]. cbn [map snd]. rewrite chars_cpairs_app. f_equal. apply IH.
+    - cbn [map snd]. f_equal. apply IH.
+  Qed.
+
+  Lemma tspace_spec : forall p, tspace p = true -> spacec (fst p) = true /\ (snd p = 0 \/ snd p = 3).
+  Proof.
+    intros p H. unfold Lint.tspace in H. apply andb_prop in H. destruct H as [H1 H2]. split; [exact H1|].
+    apply orb_prop in H2. destruct H2 as [H2|H2]; apply N.eqb_eq in H2; auto.
+  Qed.
+
+  Lemma edit_trim_r_tspace : forall cl b, cno_nl cl -> edit b cl (trim_r tspace cl).
+  Proof.
+    induction cl as [|p t IH]; intros b Hn; [constructor|].
+    assert (Hp : is_nl (fst p) = false) by (apply Hn; left; reflexivity).
+    assert (Ht : cno_nl t) by (intros q Hq; apply Hn; right; exact Hq).
+    rewrite trim_r_cons. destruct (trim_r tspace t) as [|a r] eqn:E.
+    - destruct (tspace p) eqn:Ep.
+      + destruct (tspace_spec p Ep) as [B K]. apply e_del; [apply (spacec_plain is_space sp_nodelim); assumption|exact K|]. apply IH. exact Ht.
+      + apply e_keep; [apply IH; exact Ht|]. apply trim_r_nil_iff in E.
+        destruct t as [|q t]; [apply la_eq_refl|]. cbn in E. apply andb_prop in E. destruct E as [E _].
+        cbn [chars map]. apply la_neutral. apply plain_lan. apply (spacec_plain is_space sp_nodelim); [apply (tspace_spec q E)|apply Ht; left; reflexivity].
+    - apply e_keep; [apply IH; exact Ht|]. destruct (trim_r_split tspace t) as (bb & Et & _). rewrite E in Et. rewrite Et.
+      cbn [app chars map]. apply la_same_head.
+  Qed.
+
+  Lemma edit_trim_l_sp : forall cl out, cno_nl cl -> edit true (trim_l spf cl) out -> edit true cl out.
+  Proof.
+    induction cl as [|p t IH]; intros out Hn H; [exact H|]. cbn [trim_l] in H. destruct (spacec (fst p)) eqn:E; [|exact H].
+    apply e_delc; [apply (spacec_plain is_space sp_nodelim); [exact E|apply Hn; left; reflexivity]|].
+    apply IH; [intros q Hq; apply Hn; right; exact Hq|exact H].
+  Qed.
+
+  Lemma edit_indent : forall ind cl out, forallb is_blank ind = true -> edit true cl out -> edit true cl (cpairs ind ++ out).
+  Proof.
+    induction ind as [|c ind IH]; intros cl out Hi H; [exact H|]. cbn in Hi. apply andb_prop in Hi. destruct Hi as [H1 H2].
+    cbn [cpairs map app]. apply e_ins; [apply blank_plain; exact H1|]. apply IH; assumption.
+  Qed.
+
+  Lemma trim_l_cno : forall (q : cc -> bool) cl, cno_nl cl -> cno_nl (trim_l q cl).
+  Proof. intros q cl H p Hp. apply H. eapply trim_l_incl. exact Hp. Qed.
+
+  Lemma edit_fmt_line : forall ind cl, forallb is_blank ind = true -> cno_nl cl -> edit true cl (cpairs ind ++ trim_code cl).
+  Proof.
+    intros ind cl Hi Hn. apply edit_indent; [exact Hi|]. apply edit_trim_l_sp; [exact Hn|]. unfold Lint.trim_code.
+    apply edit_trim_r_tspace. apply trim_l_cno. exact Hn.
+  Qed.
+
+  (* a line that formatSQL drops holds white space only *)
+  Lemma trim_code_nil_ws : forall cl, trim_code cl = [] -> forallb spacec (chars cl) = true.
+  Proof.
+    intros cl H. unfold Lint.trim_code in H. apply trim_r_nil_iff in H.
+    rewrite <- (take_trim_l spf cl). unfold chars. rewrite map_app, forallb_app. apply andb_true_intro. split.
+    - pose proof (take_l_all spf cl) as Ht. rewrite forallb_forall in *. intros c Hc. apply in_map_iff in Hc. destruct Hc as (p & Ep & Hp). subst. apply (Ht p Hp).
+    - rewrite forallb_forall in *. intros c Hc. apply in_map_iff in Hc. destruct Hc as (p & Ep & Hp). subst. apply (tspace_spec p (H p Hp)).
+  Qed.
+
+  Lemma fmt_next_blank : forall ind cur tr, forallb is_blank ind = true -> forallb is_blank cur = true ->
+    forallb is_blank (fmt_next_indent upper_ascii ind cur tr) = true.
+  Proof.
+    intros ind cur tr Hi Hc. unfold fmt_next_indent.
+    destruct (existsb _ fmt_reset); [reflexivity|]. destruct (existsb _ fmt_indent); [exact Hi|].
+    destruct (existsb _ fmt_reset2); [reflexivity|exact Hc].
+  Qed.
+
+  Notation tinv := tinv.
+
+  (* would a line appended after the lines ls begin in code? *)
+  Fixpoint eflag (st : lst) (flag : bool) (ls : list (list ch)) : bool :=
+    match ls with
+    | [] => flag
+    | l :: r => eflag (snd (nl_step (lex_end st l))) (fst (nl_step (lex_end st l)) =? 0) r
+    end.
+
+  Lemma thread_snoc_empty : forall ls st flag, thread st flag (ls ++ [[]]) = thread st flag ls ++ [(eflag st flag ls, [])].
+  Proof. induction ls as [|l r IH]; intros st flag; [reflexivity|]. cbn [app thread eflag]. rewrite IH. reflexivity. Qed.
+
+  (* re-scanning the formatted lines gives the classified lines formatSQL carried along *)
+  Lemma thread_flines : forall ind ls st flag cur, forallb is_blank ind = true -> forallb is_blank cur = true ->
+    tinv st flag -> Forall no_nl ls ->
+    thread st flag (map (fun fl => chars (snd fl)) (flines ind cur (thread st flag ls))) = flines ind cur (thread st flag ls) /\
+    Forall no_nl (map (fun fl => chars (snd fl)) (flines ind cur (thread st flag ls))) /\
+    eflag st flag (map (fun fl => chars (snd fl)) (flines ind cur (thread st flag ls))) = eflag st flag ls.
+  Proof.
+    intros ind. induction ls as [|l r IH]; intros st flag cur Hi Hc Ht Hall; [repeat split; constructor|].
+    inversion Hall as [|? ? Hl Hr]; subst. cbn [thread flines]. destruct flag.
+    - rewrite (Ht eq_refl) in *. set (cl := combine l (lex SCode l)).
+      assert (Hcn : cno_nl cl) by (apply combine_cno; exact Hl).
+      destruct (trim_code cl) as [|p tr] eqn:E.
+      + (* blank line of code: dropped, the scanner stays in code *)
+        assert (Hs : forallb spacec l = true) by (pose proof (trim_code_nil_ws cl E) as Z; unfold cl in Z; rewrite chars_combine in Z by apply lex_length; exact Z).
+        destruct (lex_plain_code l (ws_line_plain is_space sp_nodelim l Hl Hs)) as [_ E2]. cbn [eflag]. rewrite E2.
+        change (snd (nl_step SCode)) with SCode. change (fst (nl_step SCode) =? 0) with true.
+        apply IH; [exact Hi|exact Hc|intros _; reflexivity|exact Hr].
+      + set (cur' := fmt_next_indent upper_ascii ind cur (chars (p :: tr))).
+        assert (Hc' : forallb is_blank cur' = true) by (apply fmt_next_blank; assumption).
+        pose proof (edit_fmt_line cur' cl Hc' Hcn) as He. rewrite E in He.
+        destruct (edit_lock true cl _ He SCode l Hl eq_refl (fun _ => eq_refl)) as (L1 & L2 & L3).
+        cbn [map thread snd eflag]. rewrite L1, L2. unfold chars at 1. rewrite combine_fst_snd.
+        destruct (IH (snd (nl_step (lex_end SCode l))) (fst (nl_step (lex_end SCode l)) =? 0) cur' Hi Hc' (tinv_next SCode l) Hr) as (I1 & I2 & I3).
+        split; [f_equal; exact I1|]. split; [constructor; [exact L3|exact I2]|exact I3].
+    - cbn [map thread snd eflag]. rewrite chars_combine by apply lex_length.
+      destruct (IH (snd (nl_step (lex_end st l))) (fst (nl_step (lex_end st l)) =? 0) cur Hi Hc (tinv_next st l) Hr) as (I1 & I2 & I3).
+      split; [f_equal; exact I1|]. split; [constructor; [exact Hl|exact I2]|exact I3].
+  Qed.
+
+  (* ---- reading ---- *)
+  Notation RD := (RD is_space upper_ascii).
+  Notation RDL := (RDL is_space upper_ascii).
+  Notation T := (T is_space upper_ascii).
+  Notation wsp := (wsp is_space).
+
+  (* what the scanner guarantees about the lines formatSQL looks at *)
+  Fixpoint fok (ls : list (bool * list cc)) : Prop :=
+    match ls with
+    | [] => True
+    | fl :: r =>
+        (fst fl = true -> forallb code0 (take_l spf (snd fl)) = true) /\
+        (fst fl = true -> trim_code (snd fl) = [] -> forallb wsp (snd fl) = true /\ hflag r) /\
+        (ends03 (snd fl) = true -> hflag r) /\
+        fok r
+    end.
+
+  Lemma lead_code : forall l, no_nl l -> forallb code0 (take_l spf (combine l (lex SCode l))) = true.
+  Proof.
+    induction l as [|c t IH]; intro Hn; [reflexivity|]. cbn [lex combine take_l fst]. destruct (spacec c) eqn:E; [|reflexivity].
+    assert (Hp : plainc c = true) by (apply (spacec_plain is_space sp_nodelim); [exact E|apply Hn; left; reflexivity]).
+    rewrite (lstep_plain_code c t Hp). cbn [fst snd forallb code0 N.eqb andb]. apply IH. intros d Hd. apply Hn. right. exact Hd.
+  Qed.
+
+  Lemma thread_fok : forall ls st flag, tinv st flag -> Forall no_nl ls -> fok (thread st flag ls).
+  Proof.
+    induction ls as [|l r IH]; intros st flag Hi Hall; [exact I|]. inversion Hall as [|? ? Hl Hr]; subst.
+    cbn [thread fok fst snd]. split; [|split; [|split]].
+    - intro Hf. rewrite (Hi Hf). apply lead_code. exact Hl.
+    - intros Hf E. rewrite (Hi Hf) in *.
+      assert (Hs : forallb spacec l = true) by (pose proof (trim_code_nil_ws _ E) as Z; rewrite chars_combine in Z by apply lex_length; exact Z).
+      destruct (lex_plain_code l (ws_line_plain is_space sp_nodelim l Hl Hs)) as [E1 E2]. rewrite E1, E2. split.
+      + clear -Hs. induction l as [|c l IH]; [reflexivity|]. cbn in *. apply andb_prop in Hs. destruct Hs as [H1 H2].
+        unfold LintP.wsp at 1. cbn [fst snd]. unfold Lint.wsc. rewrite H1. cbn. apply IH. exact H2.
+      + destruct r; [exact I|reflexivity].
+    - intro He. destruct r as [|y r]; [exact I|]. cbn [thread hflag fst].
+      pose proof (thread_cons_ok (l :: y :: r) st flag Hall) as Hc. cbn [thread cons_ok] in Hc. destruct Hc as [Hc _]. apply Hc. exact He.
+    - apply IH; [apply tinv_next|exact Hr].
+  Qed.
+
+  Lemma flines_hflag : forall ind ls cur, fok ls -> hflag ls -> hflag (flines ind cur ls).
+  Proof.
+    intros ind. induction ls as [|[flag l] r IH]; intros cur Hf Hh; [exact I|]. destruct Hf as (_ & H2 & _ & Hr). cbn [flines].
+    cbn [hflag fst] in Hh. subst flag. destruct (trim_code l) eqn:E; [|reflexivity].
+    apply IH; [exact Hr|]. apply (H2 eq_refl E).
+  Qed.
+
+  Lemma blank_spacec : forall l, forallb is_blank l = true -> forallb wsp (cpairs l) = true /\ forallb code0 (cpairs l) = true.
+  Proof.
+    induction l as [|c l IH]; intro H; [split; reflexivity|]. cbn in H. apply andb_prop in H. destruct H as [H1 H2].
+    destruct (IH H2) as [I1 I2]. cbn [cpairs map forallb]. fold (cpairs l). rewrite I1, I2. unfold LintP.wsp, code0. cbn [fst snd N.eqb].
+    unfold Lint.wsc. rewrite H1. rewrite orb_true_r. split; reflexivity.
+  Qed.
+
+  Lemma spf_wsp_code : forall a, forallb spf a = true -> forallb code0 a = true -> forallb wsp a = true.
+  Proof.
+    intros a H1 H2. apply forallb_forall. intros p Hp. rewrite forallb_forall in H1, H2. unfold LintP.wsp, Lint.wsc.
+    rewrite (H1 p Hp). specialize (H2 p Hp). unfold code0 in H2. rewrite H2. reflexivity.
+  Qed.
+
+  Lemma tspace_wsp : forall b, forallb tspace b = true -> forallb wsp b = true.
+  Proof.
+    intros b H. apply forallb_forall. intros p Hp. rewrite forallb_forall in H. specialize (H p Hp).
+    unfold Lint.tspace in H. apply andb_prop in H. destruct H as [H1 H2]. unfold LintP.wsp, Lint.wsc. rewrite H1, H2. reflexivity.
+  Qed.
+
+  (* the reading of a line that begins in code, in front of Y, is the reading of its trimmed text *)
+  Lemma RD_trimmed : forall cl Y, forallb code0 (take_l spf cl) = true -> (ends03 cl = true -> absorbs Y) ->
+    scons VW (RD cl Y) = scons VW (RD (trim_code cl) Y).
+  Proof.
+    intros cl Y Hc HY. rewrite <- (take_trim_l spf cl) at 1. rewrite RD_app_code by exact Hc.
+    rewrite (sW_RD_wsp is_space upper_ascii _ _ (spf_wsp_code _ (take_l_all spf cl) Hc)).
+    unfold Lint.trim_code. destruct (trim_r_split tspace (trim_l spf cl)) as (b & E & Hb).
+    rewrite E at 1. rewrite RD_app_ws by (apply wsp_rest_ws; apply tspace_wsp; exact Hb).
+    destruct b as [|q b]; [reflexivity|]. rewrite (RD_wsp_abs is_space upper_ascii (q :: b) Y (tspace_wsp _ Hb)); [reflexivity|].
+    apply HY. unfold ends03. destruct (lastc_some_in (q :: b)) as (x & Hx); [discriminate|].
+    assert (Hl : lastc cl = Some x).
+    { rewrite <- (take_trim_l spf cl). rewrite E. rewrite app_assoc. apply lastc_app_last. exact Hx. }
+    rewrite Hl. apply lastc_in in Hx. rewrite forallb_forall in Hb. destruct (tspace_spec x (Hb x Hx)) as [_ [K|K]]; rewrite K; reflexivity.
+  Qed.
+
+  Lemma T_cons : forall x r, T (x :: r) = scons (sep x) (RD (snd x) (T r)).
+  Proof. intros x r. unfold LintP.T at 1. rewrite RDL_T. reflexivity. Qed.
+
+  Lemma T_flines : forall ind ls cur, forallb is_blank ind = true -> forallb is_blank cur = true -> fok ls ->
+    T (flines ind cur ls) = T ls.
+  Proof.
+    intros ind. induction ls as [|[flag l] r IH]; intros cur Hi Hc Hf; [reflexivity|]. destruct Hf as (H1 & H2 & H3 & Hr).
+    cbn [fst snd] in *. cbn [flines]. destruct flag.
+    - destruct (trim_code l) as [|p tr] eqn:E.
+      + destruct (H2 eq_refl eq_refl) as [Hw Hh]. rewrite (T_blank is_space upper_ascii (true, l) r eq_refl Hw Hh). apply IH; assumption.
+      + set (cur' := fmt_next_indent upper_ascii ind cur (chars (p :: tr))).
+        assert (Hc' : forallb is_blank cur' = true) by (apply fmt_next_blank; assumption).
+        rewrite !T_cons. unfold sep. cbn [fst snd]. rewrite (IH cur' Hi Hc' Hr).
+        destruct (blank_spacec cur' Hc') as [W C]. rewrite RD_app_code by exact C. rewrite (sW_RD_wsp is_space upper_ascii _ _ W).
+        rewrite (RD_trimmed l (T r) (H1 eq_refl)); [rewrite E; reflexivity|]. intro He. apply T_absorbs. apply H3. exact He.
+    - rewrite !T_cons. rewrite (IH cur Hi Hc Hr). reflexivity.
+  Qed.
+
+  Lemma nl_class_end : forall s, (fst (nl_step s) =? 0) = end_code s.
+  Proof. intros [| q | | | |]; reflexivity. Qed.
+
+  Lemma eflag_end : forall ls st flag, ls <> [] -> eflag st flag ls = end_code (lex_end st (join_nl ls)).
+  Proof.
+    induction ls as [|l r IH]; intros st flag Hne; [contradiction|]. destruct r as [|y r].
+    - cbn [eflag join_nl]. apply nl_class_end.
+    - rewrite join_cons2. destruct (lex_app_nl l st (join_nl (y :: r))) as [_ E]. rewrite E.
+      change (eflag st flag (l :: y :: r)) with (eflag (snd (nl_step (lex_end st l))) (fst (nl_step (lex_end st l)) =? 0) (y :: r)).
+      apply IH. discriminate.
+  Qed.
+
+  Lemma join_snoc_empty : forall ls, ls <> [] -> join_nl (ls ++ [[]]) = join_nl ls ++ [nlc].
+  Proof.
+    induction ls as [|l r IH]; intro H; [contradiction|]. destruct r as [|y r]; [cbn; reflexivity|].
+    change ((l :: y :: r) ++ [[]]) with (l :: (y :: r) ++ [[]]). rewrite join_cons_ne by (destruct r; discriminate).
+    rewrite IH by discriminate. rewrite join_cons2. rewrite <- app_assoc. reflexivity.
+  Qed.
+
+  Lemma RDL_snoc_empty : forall L, L <> [] -> RDL (L ++ [(true, [])]) = RDL L.
+  Proof.
+    induction L as [|fl r IH]; intro H; [contradiction|]. destruct r as [|fl2 r]; [reflexivity|].
+    change ((fl :: fl2 :: r) ++ [(true, [])]) with (fl :: (fl2 :: r) ++ [(true, [])]).
+    rewrite RDL_T. rewrite (RDL_T _ _ fl (fl2 :: r)). f_equal. unfold LintP.T. cbn [app].
+    change (fl2 :: r ++ [(true, [])]) with ((fl2 :: r) ++ [(true, [])]). rewrite IH by discriminate. reflexivity.
+  Qed.
+
+  Lemma Forall_app_nonl : forall a, Forall no_nl a -> Forall no_nl (a ++ [[]]).
+  Proof. intros a H. apply Forall_app. split; [exact H|]. constructor; [intros c []|constructor]. Qed.
+
+  Theorem format_keeps_reading : forall tab spaces final t,
+    reading is_space upper_ascii (format_sql is_space upper_ascii tab spaces final t) = reading is_space upper_ascii t.
+  Proof.
+    intros tab spaces final t. unfold format_sql.
+    set (ind := if spaces then repeat spc tab else [asc 9]).
+    assert (Hi : forallb is_blank ind = true).
+    { unfold ind. destruct spaces; [|reflexivity]. induction tab as [|n IH]; [reflexivity|cbn; exact IH]. }
+    rewrite fmt_lines_flines. rewrite (clines_thread t).
+    destruct (thread_flines ind (split_nl t) SCode true [] Hi eq_refl (fun _ => eq_refl) (split_no_nl t)) as (R1 & R2 & R3).
+    assert (Hok : fok (thread SCode true (split_nl t))) by (apply thread_fok; [intros _; reflexivity|apply split_no_nl]).
+    assert (Hh : hflag (thread SCode true (split_nl t))) by (rewrite <- clines_thread; apply clines_hflag).
+    set (L := flines ind [] (thread SCode true (split_nl t))) in *.
+    set (lines := map (fun fl => chars (snd fl)) L) in *.
+    assert (HT : T L = T (thread SCode true (split_nl t))) by (apply T_flines; [exact Hi|reflexivity|exact Hok]).
+    assert (HL : hflag L) by (apply flines_hflag; assumption).
+    assert (Rt : reading is_space upper_ascii t = strip_lead (T L)).
+    { unfold reading. rewrite clines_thread. rewrite <- (strip_T is_space upper_ascii _ Hh). rewrite HT. reflexivity. }
+    rewrite Rt. destruct L as [|fl0 L0] eqn:EL.
+    - (* nothing is left: the formatted text is empty or a single line break *)
+      unfold lines. cbn [map join_nl app]. destruct (final && negb (ends_nl []) && end_code (lex_end SCode t)); reflexivity.
+    - assert (Hne : lines <> []) by (unfold lines; discriminate).
+      assert (Cf : clines (join_nl lines) = fl0 :: L0) by (rewrite clines_join by assumption; exact R1).
+      assert (Rf : reading is_space upper_ascii (join_nl lines) = strip_lead (T (fl0 :: L0))).
+      { unfold reading. rewrite Cf. symmetry. apply strip_T. exact HL. }
+      destruct (final && negb (ends_nl (join_nl lines)) && end_code (lex_end SCode t)) eqn:Ec; [|exact Rf].
+      apply andb_prop in Ec. destruct Ec as [_ Ee].
+      rewrite <- (join_snoc_empty lines Hne). unfold reading.
+      rewrite clines_join by (try apply Forall_app_nonl; try assumption; destruct lines; discriminate).
+      rewrite thread_snoc_empty. rewrite R1. rewrite R3.
+      rewrite (eflag_end (split_nl t) SCode true (split_nonempty t)). rewrite join_split. rewrite Ee.
+      rewrite RDL_snoc_empty by discriminate. symmetry. apply strip_T. exact HL.
+  Qed.
+End Format.
+
+(* ------------------------------------------------------------------------------------------------ *)
+(* L007: the fixer converges; re-lint *)
+
+Section L007b.
+  Variables is_letter is_digit : N -> bool.
+  Variable upper_ascii : N -> option N.
+  Variable keywords : list (list N).
+  Hypothesis up_letter : forall x u, upper_ascii x = Some u -> is_letter u = true.
+  Hypothesis up_idem : forall x u, upper_ascii x = Some u -> upper_ascii u = Some u.
+
+  Notation kw_of := (kw_of upper_ascii keywords).
+  Notation conv_word := (conv_word upper_ascii keywords).
+  Notation scan := (l007_scan is_letter is_digit upper_ascii keywords).
+  Notation sN := (scan None).
+  Notation wordc := (wordc is_letter is_digit).
+  Notation wcp := (wordc true).
+
+  Lemma wordc_start_cont : forall p, wordc false p = true -> wcp p = true.
+  Proof.
+    intros p H. unfold Lint.wordc in *. apply andb_prop in H. destruct H as [H1 H2]. rewrite H1.
+    cbn [andb orb] in H2. rewrite orb_false_r in H2. rewrite H2. reflexivity.
+  Qed.
+  Lemma wordc_cont_not : forall p, wcp p = false -> wordc false p = false.
+  Proof. intros p H. destruct (wordc false p) eqn:E; [rewrite (wordc_start_cont p E) in H; discriminate|reflexivity]. Qed.
+
+  Lemma sN_other : forall p t, wordc false p = false -> sN (p :: t) = p :: sN t.
+  Proof. intros p t H. cbn [l007_scan]. rewrite H. reflexivity. Qed.
+
+  Lemma absorb : forall t w, scan (Some w) t = scan (Some (rev (take_l wcp t) ++ w)) (trim_l wcp t).
+  Proof.
+    induction t as [|p t IH]; intro w; [reflexivity|]. cbn [take_l trim_l]. destruct (wcp p) eqn:E; [|reflexivity].
+    cbn [l007_scan]. rewrite E. rewrite IH. cbn [rev]. rewrite <- app_assoc. reflexivity.
+  Qed.
+
+  Definition stops (r : list cc) : Prop := r = [] \/ exists d r', r = d :: r' /\ wcp d = false.
+
+  Lemma boundary : forall w r, stops r -> scan (Some w) r = conv_word (rev w) ++ sN r.
+  Proof.
+    intros w r [H|(d & r' & H & Hd)]; subst.
+    - cbn [l007_scan]. rewrite app_nil_r. reflexivity.
+    - cbn [l007_scan]. rewrite Hd. rewrite (wordc_cont_not d Hd). reflexivity.
+  Qed.
+
+  Lemma trim_l_stops : forall t, stops (trim_l wcp t).
+  Proof.
+    intro t. destruct (trim_l wcp t) as [|d r] eqn:E; [left; reflexivity|right].
+    exists d, r. split; [reflexivity|]. eapply trim_l_head. exact E.
+  Qed.
+
+  Lemma sN_word : forall p t, wordc false p = true -> sN (p :: t) = conv_word (p :: take_l wcp t) ++ sN (trim_l wcp t).
+  Proof.
+    intros p t H. cbn [l007_scan]. rewrite H. rewrite absorb. rewrite boundary by apply trim_l_stops.
+    rewrite rev_app_distr. rewrite rev_involutive. reflexivity.
+  Qed.
+
+  Lemma sN_word_app : forall p v x, wordc false p = true -> forallb wcp v = true -> stops x ->
+    sN (p :: v ++ x) = conv_word (p :: v) ++ sN x.
+  Proof.
+    intros p v x H Hv Hx. rewrite sN_word by exact H.
+    assert (E1 : take_l wcp (v ++ x) = v).
+    { rewrite take_l_app_all by exact Hv. destruct Hx as [Hx|(d & r & Hx & Hd)]; subst; [rewrite app_nil_r; reflexivity|].
+      rewrite take_l_stop by exact Hd. rewrite app_nil_r. reflexivity. }
+    assert (E2 : trim_l wcp (v ++ x) = x).
+    { rewrite trim_l_app_all by exact Hv. destruct Hx as [Hx|(d & r & Hx & Hd)]; subst; [reflexivity|]. apply trim_l_stop. exact Hd. }
+    rewrite E1, E2. reflexivity.
+  Qed.
+
+  Lemma sN_stops : forall r, stops r -> stops (sN r).
+  Proof.
+    intros r [H|(d & r' & H & Hd)]; subst; [left; reflexivity|right].
+    rewrite sN_other by (apply wordc_cont_not; exact Hd). eexists _, _. split; [reflexivity|exact Hd].
+  Qed.
+
+  Lemma all_some_length : forall l u, all_some l = Some u -> length u = length l.
+  Proof.
+    induction l as [|[x|] l IH]; intros u H; cbn in H; [inversion H; reflexivity| |discriminate].
+    destruct (all_some l) as [r|]; [|discriminate]. inversion H; subst. cbn. f_equal. apply IH. reflexivity.
+  Qed.
+  Lemma all_some_in : forall l u y, all_some l = Some u -> In y u -> In (Some y) l.
+  Proof.
+    induction l as [|[x|] l IH]; intros u y H Hy; cbn in H; [inversion H; subst; destruct Hy| |discriminate].
+    destruct (all_some l) as [r|] eqn:E; [|discriminate]. inversion H; subst.
+    destruct Hy as [Hy|Hy]; [left; subst; reflexivity|right; eapply IH; [reflexivity|exact Hy]].
+  Qed.
+  Lemma all_some_idem : forall (w : list ch) u, all_some (map (fun c => upper_ascii (cp c)) w) = Some u ->
+    all_some (map (fun c => upper_ascii (cp c)) (map asc u)) = Some u.
+  Proof.
+    induction w as [|c w IH]; intros u H; cbn in H; [inversion H; reflexivity|].
+    destruct (upper_ascii (cp c)) as [x|] eqn:Ex; [|discriminate].
+    destruct (all_some (map (fun c0 => upper_ascii (cp c0)) w)) as [r|] eqn:Er; [|discriminate].
+    inversion H; subst. cbn. rewrite (up_idem _ _ Ex). rewrite (IH r eq_refl). reflexivity.
+  Qed.
+
+  Definition upairs (u : list N) : list cc := map (fun b => (asc b, 0)) u.
+  Lemma chars_upairs : forall u, chars (upairs u) = map asc u.
+  Proof. intro u. unfold chars, upairs. rewrite map_map. reflexivity. Qed.
+
+  Lemma kw_of_conv : forall w u, kw_of w = Some u -> kw_of (map asc u) = Some u.
+  Proof.
+    intros w u H. unfold Lint.kw_of in *.
+    destruct (all_some (map (fun c => upper_ascii (cp c)) w)) as [x|] eqn:E; [|discriminate].
+    destruct (existsb (list_eqb x) keywords) eqn:Ek; [|discriminate]. inversion H; subst.
+    rewrite (all_some_idem w u E). rewrite Ek. reflexivity.
+  Qed.
+
+  Lemma conv_idem : forall w, conv_word (conv_word w) = conv_word w.
+  Proof.
+    intro w. assert (E0 : conv_word w = match kw_of (chars w) with Some u => upairs u | None => w end) by reflexivity.
+    destruct (kw_of (chars w)) as [u|] eqn:E; rewrite E0.
+    - unfold Lint.conv_word. rewrite chars_upairs. rewrite (kw_of_conv _ u E). reflexivity.
+    - unfold Lint.conv_word. rewrite E. reflexivity.
+  Qed.
+
+  Lemma kw_letters : forall w u y, kw_of w = Some u -> In y u -> exists x, upper_ascii x = Some y.
+  Proof.
+    intros w u y H Hy. unfold Lint.kw_of in H.
+    destruct (all_some (map (fun c => upper_ascii (cp c)) w)) as [x|] eqn:E; [|discriminate].
+    destruct (existsb (list_eqb x) keywords); [|discriminate]. inversion H; subst.
+    apply (all_some_in _ _ _ E) in Hy. apply in_map_iff in Hy. destruct Hy as (c & Hc & _). exists (cp c). exact Hc.
+  Qed.
+
+  Lemma upair_word : forall x y, upper_ascii x = Some y -> wordc false (asc y, 0) = true.
+  Proof. intros x y H. unfold Lint.wordc, code0, Lint.word_start. cbn [fst snd asc cp N.eqb andb]. rewrite (up_letter _ _ H). reflexivity. Qed.
+
+  (* the converted word is again a word *)
+  Lemma conv_shape : forall p v, wordc false p = true -> forallb wcp v = true ->
+    exists p' v', conv_word (p :: v) = p' :: v' /\ wordc false p' = true /\ forallb wcp v' = true.
+  Proof.
+    intros p v H Hv. unfold Lint.conv_word. destruct (kw_of (chars (p :: v))) as [u|] eqn:E.
+    - assert (Hl : length u = length (p :: v)).
+      { unfold Lint.kw_of in E. destruct (all_some (map (fun c0 => upper_ascii (cp c0)) (chars (p :: v)))) as [x|] eqn:Ex; [|discriminate].
+        destruct (existsb (list_eqb x) keywords); [|discriminate]. inversion E; subst.
+        rewrite (all_some_length _ _ Ex). unfold chars. rewrite !map_length. reflexivity. }
+      destruct u as [|y u]; [discriminate|]. exists (asc y, 0), (upairs u). split; [reflexivity|].
+      destruct (kw_letters _ _ y E (or_introl eq_refl)) as (x & Hx). split; [apply (upair_word x y Hx)|].
+      apply forallb_forall. intros z Hz. apply in_map_iff in Hz. destruct Hz as (b & Eb & Hb). subst.
+      destruct (kw_letters _ _ b E (or_intror Hb)) as (x' & Hx'). apply wordc_start_cont. apply (upair_word x' b Hx').
+    - exists p, v. repeat split; assumption.
+  Qed.
+
+  Lemma l007_scan_idem_n : forall n l, (length l <= n)%nat -> sN (sN l) = sN l.
+  Proof.
+    induction n as [|n IH]; intros l Hl.
+    - destruct l; [reflexivity|cbn in Hl; lia].
+    - destruct l as [|p t]; [reflexivity|]. cbn [length] in Hl.
+      destruct (wordc false p) eqn:Ew.
+      + rewrite sN_word by exact Ew. pose proof (take_l_all wcp t) as Hv.
+        destruct (conv_shape p (take_l wcp t) Ew Hv) as (p' & v' & Ec & W' & V').
+        rewrite Ec. change ((p' :: v') ++ sN (trim_l wcp t)) with (p' :: v' ++ sN (trim_l wcp t)).
+        rewrite sN_word_app; [|exact W'|exact V'|apply sN_stops; apply trim_l_stops].
+        rewrite <- Ec. rewrite conv_idem.
+        assert (Hr : (length (trim_l wcp t) <= n)%nat).
+        { pose proof (take_trim_l wcp t) as E. apply (f_equal (@length cc)) in E. rewrite app_length in E. lia. }
+        rewrite (IH _ Hr). rewrite Ec. reflexivity.
+      + rewrite sN_other by exact Ew. rewrite sN_other by exact Ew. rewrite IH by lia. reflexivity.
+  Qed.
+
+  Lemma l007_line_idem : forall l, l007_line is_letter is_digit upper_ascii keywords (l007_line is_letter is_digit upper_ascii keywords l)
+                                  = l007_line is_letter is_digit upper_ascii keywords l.
+  Proof. intro l. unfold l007_line. apply (l007_scan_idem_n (length l) l (le_n _)). Qed.
+End L007b.
+
+Section L007Text.
+  Variables is_letter is_digit : N -> bool.
+  Variable upper_ascii : N -> option N.
+  Variable keywords : list (list N).
+  Hypothesis up_plain : forall x u, upper_ascii x = Some u -> plainN x /\ plainN u.
+  Hypothesis up_letter : forall x u, upper_ascii x = Some u -> is_letter u = true.
+  Hypothesis up_idem : forall x u, upper_ascii x = Some u -> upper_ascii u = Some u.
+
+  Theorem l007_fix_idempotent : forall t,
+    l007_fix is_letter is_digit upper_ascii keywords (l007_fix is_letter is_digit upper_ascii keywords t)
+    = l007_fix is_letter is_digit upper_ascii keywords t.
+  Proof.
+    intro t. apply (per_cline_idem (l007_line is_letter is_digit upper_ascii keywords)).
+    - apply (l007_lock is_letter is_digit upper_ascii keywords up_plain).
+    - apply (l007_line_idem is_letter is_digit upper_ascii keywords up_letter up_idem).
+  Qed.
+End L007Text.
